@@ -149,6 +149,18 @@ func ruleC13(c *Check, p *Prog) {
 	c.Floor("R-HDR", 3)
 	c.Floor("R-COL", 79)
 	c.Floor("R-ROW", 3)
+	// "one COMPLETE row per sample file": every library call of a row returns on an admissible sample (no validation panic
+	// at the three scales, the 2^27-point transform of the 10^8-bit scale included), and the bits it is applied to are a
+	// fresh expansion of the current file's bytes (not a buffer shared between the files in flight)
+	for _, pr := range []string{"C01", "C02", "C03", "C04", "C05"} {
+		checkPreconds(c, p, pr)
+	}
+	checkBitAdapters(c, p)
+	// the 10^8-bit scale pads to exactly 2^27 points, the largest transform the fft package accepts: its size functions are
+	// the reference ones (a bound moved from `>` to `>=` turns every row of that scale into a panic in the worker)
+	for _, sp := range append(append([]numSpec{}, c05Specs[1:2]...), c19Specs[:2]...) {
+		checkEquiv(c, p, "R-SCALE-FFT", sp.Key, sp.Spec, sp.What)
+	}
 	scales := []struct {
 		Tag   string
 		Bits  int64
